@@ -949,6 +949,26 @@ func (r *NRun) DeliverRaw(content []byte, block *fakes.Block) (mainPanic, worker
 	return
 }
 
+// SyncPast moves the node past its current height the way a consumer's block sync does: UpdateState with a block of that height.
+func (r *NRun) SyncPast() {
+	w := r.W
+	n := r.Me
+	h := r.h()
+	b := r.freshBlock("sync")
+	nm := w.Mon.per[n.Idx]
+	n.Inbox = append(n.Inbox, InEvent{Kind: "sync", Block: b})
+	pre := w.Mon.pre(n)
+	w.guard(n, func() {
+		n.VN.Gc()
+		if n.VN.MainUpdateState(b, nil) {
+			nm.blockFor[h+1] = b
+			nm.proofFor[h+1] = nil
+			n.VN.WorkerUpdateState(b, nil)
+		}
+	})
+	w.Mon.onSync(n, &Commit{H: h, Block: b}, pre)
+}
+
 // CommitRound plays the other members through one complete valid round at the node's current height.
 // It returns true if the node committed that height.
 func (r *NRun) CommitRound() bool {
